@@ -16,6 +16,7 @@ type Seg struct {
 	Payload []byte // bytes after the 2-byte length field
 	Kind    string // "exif", "xmp", "other"
 	Off     int    // absolute offset of the 0xFF byte (filled by BuildJPEG)
+	Fill    int    // number of 0xFF fill bytes in front of the marker (T.81 B.1.1.2 allows any number)
 }
 
 const ExifPrefix = "Exif\x00\x00"
@@ -121,6 +122,9 @@ func BuildJPEG(r *core.Rng, segs []Seg, tail int) JPEG {
 	for _, s := range segs {
 		if len(s.Payload) > 65533 { // the length field holds len+2 in 16 bits
 			s.Payload = s.Payload[:65533]
+		}
+		for k := 0; k < s.Fill; k++ {
+			b.WriteByte(0xFF)
 		}
 		s.Off = b.Len()
 		b.Write([]byte{0xFF, s.Marker})
